@@ -612,26 +612,54 @@ def _gen_raw(rng, stream):
         return lid
 
     want_subs = stream in ("clean", "subs-free-var") and rng.random() < 0.6
-    use_cat = stream in ("clean", "cat-part-name") and rng.random() < (0.2 if stream == "clean" else 1.0)
+    use_cat = stream in ("clean", "cat-part-name") and rng.random() < (0.25 if stream == "clean" else 1.0)
+    cat_leaves = set()
+    cat_ok = rng.random() < 0.5      # may Cat parts also be read elsewhere in the term?
     for i in range(nleaf):
         if use_cat and i == 0:
+            # Cat over variable v: 2-4 parts drawn WITH repetition from a pool of 1-3 part leaves of
+            # sizes 1-3 (the same Tensor object may occur twice, adjacent or not); sz[v] = total length
             v = rng.choice([g for g in range(NGLOB)])
-            if sz[v] < 2:
-                sz[v] = rng.choice([2, 3])
-            parts_sizes = rng.choice({2: [[1, 1]], 3: [[1, 2], [2, 1], [1, 1, 1]]}[sz[v]])
             others = [(g, sz[g]) for g in rng.sample([g for g in range(NGLOB) if g != v], rng.choice([0, 0, 1]))]
-            lids = []
-            for n in parts_sizes:
-                ax = [(v, n)] + others
+            for _ in range(50):
+                npool = rng.choice([1, 2, 2, 3])
+                pool_sizes = [rng.choice([1, 1, 2, 3]) for _ in range(npool)]
+                nparts = rng.choice([2, 2, 3, 3, 4])
+                pick = [rng.randrange(npool) for _ in range(nparts)]
+                if stream == "cat-part-name" or rng.random() < 0.4:
+                    pick = list(range(npool)) if npool >= 2 else [0, 0]     # no repetition / minimal
+                if sum(pool_sizes[k] for k in pick) <= 6:
+                    break
+            else:
+                return None
+            sz[v] = sum(pool_sizes[k] for k in pick)
+            pool = {}
+            for k in sorted(set(pick)):
+                ax = [(v, pool_sizes[k])] + others
                 rng.shuffle(ax)
-                lids.append(new_leaf(force_axes=ax))
-            nodes.append(("cat", v, lids))
+                pool[k] = new_leaf(force_axes=ax)
+            cat_node = ("cat", v, [pool[k] for k in pick])
+            nodes.append(cat_node)
+            cat_leaves.update(pool.values())
+            if stream == "clean" and rng.random() < 0.25:
+                # the same leaves in a second Cat (same multiset of parts, shuffled)
+                again = list(cat_node[2])
+                rng.shuffle(again)
+                nodes.append(("cat", v, again))
             continue
-        reusable = [l for l in leaves if not any(n[0] == "cat" and l in n[2] for n in nodes)]
-        if reusable and rng.random() < 0.25:
+        reusable = [l for l in leaves if l not in cat_leaves or (stream == "clean" and cat_ok)]
+        force_subs = False
+        if reusable and rng.random() < (0.45 if cat_leaves and cat_ok else 0.25):
             lid = rng.choice(reusable)
+            force_subs = lid in cat_leaves      # a Cat part elsewhere: its v-axis is shorter than v, so via Subs
         else:
             lid = new_leaf()
+        if force_subs:
+            acc = gen_access(rng, sz, leaves[lid]["axes"], allow_subs=True)
+            if acc is None:
+                return None
+            nodes.append(("acc", lid, acc))
+            continue
         acc = gen_access(rng, sz, leaves[lid]["axes"], allow_subs=want_subs or stream == "subs-diagonal",
                          diagonal=(stream == "subs-diagonal"))
         if acc is None:
